@@ -130,6 +130,9 @@ pub struct Shared {
     pub cut_eq: Cell<bool>,
     pub guards: RefCell<Vec<(GuardOwner, Rc<Cell<u32>>)>>,
     pub smuggle: Cell<bool>,
+    /// every bind closure first runs `within_scope(top, ..)` (the scope must be restored afterwards)
+    pub scope_call: Cell<bool>,
+    pub top_scope: RefCell<Option<incremental::Scope>>,
     pub scenario_name: String,
     pub performed: RefCell<Vec<Performed>>,
 }
@@ -434,6 +437,7 @@ pub struct Ops {
     pub unsubscribe: bool,
     pub set_cutoff: Vec<CutKind>,
     pub drop_handle: bool,
+    pub scope_call_in_closure: bool,
     pub state_unsubscribe: bool,
     pub observe_smuggled: bool,
     pub subscribe_smuggled_only: bool,
@@ -594,6 +598,8 @@ impl World {
             cut_eq: Cell::new(false),
             guards: RefCell::new(vec![]),
             smuggle: Cell::new(cfg.ops.observe_smuggled),
+            scope_call: Cell::new(cfg.ops.scope_call_in_closure),
+            top_scope: RefCell::new(Some(state.as_ref().unwrap().current_scope())),
             scenario_name: cfg.name.clone(),
             performed: RefCell::new(vec![]),
         });
@@ -2508,6 +2514,13 @@ impl World {
 fn make_rhs(sh: &Rc<Shared>, ws: &WeakState, bind: usize, branch: bool, gen: u32, r: &Rhs, h: Option<&Incr<SV>>, h2: Option<&Incr<SV>>, lhs: &SV) -> Incr<SV> {
     let g0 = rhs_fn(bind, branch, 0);
     let g1 = rhs_fn(bind, branch, 1);
+    if sh.scope_call.get() {
+        // something unrelated built in the top scope from inside the closure (what weak_memoize_fn does on a
+        // cache miss): everything the closure builds afterwards still belongs to the bind
+        let top = sh.top_scope.borrow().clone().unwrap();
+        ws.within_scope(top, || drop(ws.constant(SV::lit(0))));
+        cover("within_scope-call-inside-bind-closure");
+    }
     let g0_guard = sh.new_guard(GuardOwner::Rhs(bind, gen));
     if matches!(r, Rhs::Node(_) | Rhs::FreshConst | Rhs::FreshBind(..)) {
         // no closure is built for this right-hand side
